@@ -739,3 +739,132 @@ Section PairListRuns.
       + apply IH; assumption.
   Qed.
 End PairListRuns.
+
+(* ------------------------------------------------------------------ arithmetic path variables *)
+Fixpoint wrsum (i : nat) (l : list R) : R := match l with [] => 0 | e :: r => INR i * e + wrsum (S i) r end.
+Lemma weighted_index_sum_eq i acc l : weighted_index_sum Rops i acc l = acc + wrsum i l.
+Proof.
+  revert i acc. induction l as [|e r IH]; intros i acc; cbn [weighted_index_sum wrsum]; [lra|].
+  rewrite IH, INR_nofnat. rs. lra.
+Qed.
+Lemma wrsum_scal c i l : wrsum i (map (fun e => e * c) l) = wrsum i l * c.
+Proof. revert i. induction l as [|e r IH]; intros i; cbn [map wrsum]; [lra|]. rewrite IH. ring. Qed.
+Lemma rsum_exp_pos {A} (f : A -> R) l : l <> [] -> 0 < rsum (fun a => exp (f a)) l.
+Proof.
+  destruct l as [|a l]; [congruence|]. intros _. cbn [rsum].
+  assert (H : forall l', 0 <= rsum (fun a => exp (f a)) l').
+  { induction l' as [|b l' IH]; cbn [rsum]; [lra|]. pose proof (exp_pos (f b)). lra. }
+  pose proof (exp_pos (f a)). specialize (H l). lra.
+Qed.
+(* the log-sum-exp evaluation gives the textbook expressions, whatever exponent is subtracted:
+   z = -(1/lambda) ln sum_i exp(-lambda d_i),  s = (1/(F-1)) sum_i i exp(-lambda d_i) / sum_i exp(-lambda d_i) *)
+Lemma apath_closed (lambda : R) (ds : list R) : ds <> [] ->
+  let A0 := rsum (fun d => exp (- lambda * d)) ds in
+  let A1 := wrsum 0 (map (fun d => exp (- lambda * d)) ds) in
+  snd (apath_sz Rops lambda ds) = - 1 / lambda * ln A0 /\
+  (0 < A1 -> fst (apath_sz Rops lambda ds) = 1 / INR (length ds - 1) * (A1 / A0)).
+Proof.
+  intros Hne A0 A1. unfold apath_sz. cbv zeta. cbn [fst snd].
+  set (es := map (fun d => nmul Rops (nmul Rops d (nneg Rops (n1 Rops))) lambda) ds).
+  set (mx := match es with [] => n0 Rops | e0 :: r => max_from Rops e0 r end).
+  assert (HA0 : 0 < A0) by (apply rsum_exp_pos; exact Hne).
+  assert (Hxs : map (fun e => nexp Rops (nsub Rops e mx)) es = map (fun d => exp (- lambda * d) * exp (- mx)) ds).
+  { unfold es. rewrite map_map. apply map_ext. intros d. rs. rewrite <- exp_plus. f_equal. ring. }
+  rewrite Hxs, lsum_eq, weighted_index_sum_eq, rsum_map.
+  assert (Hmap : map (fun d : R => exp (- lambda * d) * exp (- mx)) ds = map (fun e => e * exp (- mx)) (map (fun d => exp (- lambda * d)) ds))
+    by (rewrite map_map; reflexivity).
+  rewrite Hmap, wrsum_scal. fold A1. rewrite rsum_scal_r. fold A0. rs.
+  assert (Hem : 0 < exp (- mx)) by apply exp_pos.
+  assert (L0 : mx + ln (A0 * exp (- mx)) = ln A0) by (rewrite ln_mult by assumption; rewrite ln_exp; ring).
+  split.
+  - rewrite L0. reflexivity.
+  - intros HA1. rewrite INR_nofnat, L0.
+    assert (L1 : mx + ln (0 + A1 * exp (- mx)) = ln A1) by (rewrite Rplus_0_l, ln_mult by assumption; rewrite ln_exp; ring).
+    rewrite L1. unfold Rminus. rewrite exp_plus, exp_Ropp, !exp_ln by assumption. reflexivity.
+Qed.
+
+Lemma frame_wsd_dev (q : Q4) ref g :
+  frame_wsd Rops q ref g = sqrt (1 / INR (length g)) * sqrt (1 / INR (length g)) * sq_dev Rops q (fit_pairs Rops ref g).
+Proof.
+  unfold frame_wsd. cbv zeta. rewrite lsum_eq, INR_nofnat, sq_dev_R. rs. rewrite rsum_scal.
+  unfold fit_positions, fit_pairs, center_pts. cbv zeta. rewrite fit_dev_eq. reflexivity.
+Qed.
+Lemma frame_wsd_rigid (M : M3) (q q' : Q4) ref t g : proper_rotation M -> g <> [] ->
+  is_optimal q (fit_pairs Rops ref g) -> is_optimal q' (fit_pairs Rops ref (shift_group t (rot_group M g))) ->
+  frame_wsd Rops q' ref (shift_group t (rot_group M g)) = frame_wsd Rops q ref g.
+Proof.
+  intros HM Hg Hq Hq'. destruct (rotation_is_quaternion M HM) as [p [Hp HpM]]. subst M.
+  assert (Hg' : rot_group (rotation_matrix Rops p) g <> []) by (destruct g; [congruence | discriminate]).
+  rewrite !frame_wsd_dev. rewrite fit_pairs_shift, fit_pairs_rot in * by exact Hg'.
+  rewrite length_shift, length_rot, (optimal_dev_rot_first p q q' _ Hp Hq Hq'). reflexivity.
+Qed.
+(* aspath / azpath are unchanged by a rigid motion of all atoms (each frame's own optimal superposition) *)
+Lemma apath_rigid (M : M3) lambda (qs qs' : list Q4) (frames : list (list V3)) t g : proper_rotation M -> g <> [] ->
+  Forall2 (fun q fr => is_optimal q (fit_pairs Rops fr g)) qs frames ->
+  Forall2 (fun q fr => is_optimal q (fit_pairs Rops fr (shift_group t (rot_group M g)))) qs' frames ->
+  cv_apath Rops lambda qs' frames (shift_group t (rot_group M g)) = cv_apath Rops lambda qs frames g.
+Proof.
+  intros HM Hg H1 H2. unfold cv_apath. f_equal.
+  revert qs' H2. induction H1 as [|q fr qs frames Hq H1 IH]; intros qs' H2; inversion H2 as [|q' fr' qs'' frames' Hq' H2']; subst; [reflexivity|].
+  cbn [combine map fst snd]. f_equal; [apply (frame_wsd_rigid M q q'); assumption | apply IH; exact H2'].
+Qed.
+
+(* ------------------------------------------------------------------ pair lists of selfCoordNum and group2CenterOnly *)
+Lemma pl_pts_exact r0 r0v en ed tol cell (pts : list (V3 * V3)) : 0 <= tol ->
+  pl_value_pts Rops (pl_build_pts Rops r0 r0v en ed tol cell pts) r0 r0v en ed tol cell pts =
+  rsum (fun pr => switching Rops r0 r0v en ed tol cell (fst pr) (snd pr)) pts.
+Proof.
+  intros Ht. unfold pl_value_pts, pl_build_pts. rewrite lsum_eq, combine_map_self, rsum_map.
+  apply rsum_ext. intros pr _. cbn [fst snd]. unfold nhalf. rs.
+  destruct (Rltb (- (tol * (1 / 2))) _) eqn:E; [reflexivity|].
+  apply Rltb_false in E. rewrite switching_clamp.
+  set (raw := switching_raw Rops r0 r0v en ed tol cell (fst pr) (snd pr)) in *.
+  destruct (Rltb raw 0) eqn:E2; [reflexivity|]. apply Rltb_false in E2. lra.
+Qed.
+Lemma self_rsum_pts (f : V3 -> V3 -> R) (l : list atomR) :
+  self_rsum (fun a b => f (a_pos a) (a_pos b)) l = rsum (fun pr => f (fst pr) (snd pr)) (self_pts l).
+Proof.
+  induction l as [|a r IH]; cbn [self_rsum self_pts rsum]; [reflexivity|]. rewrite rsum_app, rsum_map, IH. reflexivity.
+Qed.
+Lemma selfcoordnum_pairlist_exact r0 en ed tol cell g : 0 <= tol ->
+  pl_value_pts Rops (pl_build_pts Rops r0 None en ed tol cell (self_pts g)) r0 None en ed tol cell (self_pts g) =
+  cv_selfcoordnum Rops r0 en ed tol cell g.
+Proof.
+  intros Ht. rewrite pl_pts_exact by exact Ht. unfold cv_selfcoordnum. rewrite self_sum_from_eq. rs.
+  rewrite (self_rsum_pts (fun p1 p2 => switching Rops r0 None en ed tol cell p1 p2) g). lra.
+Qed.
+Lemma coordnum_center_pairlist_exact r0 r0v en ed tol cell g1 g2 : 0 <= tol ->
+  pl_value_pts Rops (pl_build_pts Rops r0 r0v en ed tol cell (center_pairs Rops g1 g2)) r0 r0v en ed tol cell (center_pairs Rops g1 g2) =
+  cv_coordnum_center Rops r0 r0v en ed tol cell g1 g2.
+Proof.
+  intros Ht. rewrite pl_pts_exact by exact Ht. unfold cv_coordnum_center, center_pairs. cbv zeta.
+  rewrite lsum_eq, rsum_map. reflexivity.
+Qed.
+
+(* ------------------------------------------------------------------ eigenvector: prepared vectors *)
+Lemma cv_eigenvector_v_centered (q : Q4) ref vec g :
+  cv_eigenvector_v Rops q ref (eigvec_prepare Rops false false q ref vec) g = cv_eigenvector Rops q ref vec g.
+Proof. reflexivity. Qed.
+Lemma vnorm2_sum_scale c (v : list V3) : vnorm2_sum Rops (map (v3scale Rops c) v) = c * c * vnorm2_sum Rops v.
+Proof.
+  unfold vnorm2_sum. rewrite !lsum_eq, rsum_map, <- rsum_scal. apply rsum_ext. intros p _.
+  dv p. unfold v3norm2, v3dot, v3scale. rs. ring.
+Qed.
+(* normalizeVector: the vector used has unit norm *)
+Lemma eigvec_normalized (difference : bool) (qd : Q4) (ref vec : list V3) :
+  0 < vnorm2_sum Rops (if difference then map (fun pr => v3sub Rops (rotate Rops qd (fst pr)) (snd pr)) (combine (center_pts Rops vec) (center_pts Rops ref))
+                       else center_pts Rops vec) ->
+  vnorm2_sum Rops (eigvec_prepare Rops difference true qd ref vec) = 1.
+Proof.
+  intros H. unfold eigvec_prepare. cbv zeta.
+  destruct difference; rewrite vnorm2_sum_scale; rs;
+    (rewrite sqrt_sqrt; [field; lra|]; unfold Rdiv; rewrite Rmult_1_l; left; apply Rinv_0_lt_compat; exact H).
+Qed.
+Lemma eigenvector_v_rigid (M : M3) (q q' : Q4) ref v t g : proper_rotation M -> g <> [] ->
+  unique_optimum (fit_pairs Rops ref g) ->
+  is_optimal q (fit_pairs Rops ref g) -> is_optimal q' (fit_pairs Rops ref (shift_group t (rot_group M g))) ->
+  cv_eigenvector_v Rops q' ref v (shift_group t (rot_group M g)) = cv_eigenvector_v Rops q ref v g.
+Proof.
+  intros HM Hg Hu Hq Hq'. unfold cv_eigenvector_v.
+  destruct (fitted_rigid_M M q q' ref v t g HM Hg Hu Hq Hq') as [E _]. rewrite E. reflexivity.
+Qed.
